@@ -266,6 +266,7 @@ package pdf
 //@   trusted
 //@   assigns nothing
 //@   ensures (r == nil) == (err == nil) && malformed(r) == malformed(err)
+//@   ensures r != io.EOF && r != io.ErrUnexpectedEOF
 
 //@ func (*scanner).CurrentPos (s) (p)
 //@   tags C04 C05
@@ -330,3 +331,79 @@ package pdf
 //@   loop 1: invariant R(s) && scanFrame(s) && apos(s) >= old(apos(s)) && (refof(res) == 0 || refof(res) > \top0)
 //@   loop 1: decreases avail(s), (ignoreLF ? 1 : 0)
 //@   loop 2: invariant R(s) && scanFrame(s) && apos(s) >= pre(apos(s)) && (refof(res) == 0 || refof(res) > \top0)
+
+// ---- references ----
+//@ func NewReference (number, generation) (r)
+//@   tags C01 C04 C05
+//@   pure
+//@   requires number < 16777216
+//@   ensures r == number + generation * 4294967296
+
+//@ func (Reference).Number (x) (n)
+//@   tags C01 C04
+//@   pure
+//@   ensures n == x % 4294967296
+
+//@ func (Reference).Generation (x) (g)
+//@   tags C01 C04
+//@   pure
+//@   ensures g == (x / 4294967296) % 65536
+
+// ---- composite objects: panic-freedom, buffer invariant, nesting bound, error classes ----
+//@ pred RN(s *scanner) = R(s) && 0 <= s.nestDepth && s.nestDepth <= 256
+
+//@ func (*scanner).ReadStreamData (s, dict) (stm, err)
+//@   trusted
+//@   assigns s.filePos, s.pos, s.used, s.err, elems(s.buf), s.src.rdpos, mapof(dict)
+//@   ensures RN(s) && scanFrame(s) && apos(s) >= old(apos(s)) && s.nestDepth == old(s.nestDepth)
+//@   ensures err != nil && !malformed(err) ==> s.src.fails
+//@   ensures err != io.EOF
+
+//@ func (*scanner).ReadArray (s) (array, err)
+//@   tags C01 C04 C05 C19 C20
+//@   requires RN(s)
+//@   assigns s.filePos, s.pos, s.used, s.err, elems(s.buf), s.src.rdpos, s.nestDepth
+//@   ensures RN(s) && scanFrame(s) && apos(s) >= old(apos(s)) && s.nestDepth == old(s.nestDepth)
+//@   ensures s.enc == nil ==> (err != nil && !malformed(err) ==> s.src.fails)
+//@   ensures err == nil ==> refof(array) > \top0
+//@   ensures err != io.EOF
+//@   loop 1: invariant R(s) && scanFrame(s) && apos(s) >= old(apos(s)) && s.nestDepth == old(s.nestDepth) + 1 && s.nestDepth <= 256
+//@   loop 1: invariant refof(array) > \top0 && 0 <= integersSeen && integersSeen <= len(array)
+//@   loop 1: invariant forall j in offof(array) + len(array) - integersSeen .. offof(array) + len(array) :: istype(raw(array)[j], Integer)
+
+//@ func (*scanner).ReadDict (s) (dict, err)
+//@   tags C01 C04 C05 C19 C20
+//@   requires RN(s)
+//@   assigns s.filePos, s.pos, s.used, s.err, elems(s.buf), s.src.rdpos, s.nestDepth
+//@   ensures RN(s) && scanFrame(s) && apos(s) >= old(apos(s)) && s.nestDepth == old(s.nestDepth)
+//@   ensures s.enc == nil ==> (err != nil && !malformed(err) ==> s.src.fails)
+//@   ensures err == nil ==> dict > \top0
+//@   ensures err != io.EOF
+//@   loop 1: invariant R(s) && scanFrame(s) && apos(s) >= old(apos(s)) && s.nestDepth == old(s.nestDepth) + 1 && s.nestDepth <= 256
+//@   loop 1: invariant dict != nil && dict > \top0
+
+//@ func (*scanner).ReadObject (s) (obj, err)
+//@   tags C01 C04 C05 C19 C20
+//@   requires RN(s)
+//@   assigns s.filePos, s.pos, s.used, s.err, elems(s.buf), s.src.rdpos, s.nestDepth
+//@   ensures RN(s) && scanFrame(s) && apos(s) >= old(apos(s)) && s.nestDepth == old(s.nestDepth)
+//@   ensures s.enc == nil ==> (err != nil && !malformed(err) && err != io.EOF ==> s.src.fails)
+//@   ensures err == io.EOF ==> atEnd(s) && !s.src.fails
+
+//@ func (*scanner).readIndirectObject (s) (obj, ref, err)
+//@   tags C04 C05 C19 C20
+//@   requires RN(s)
+//@   assigns s.filePos, s.pos, s.used, s.err, elems(s.buf), s.src.rdpos, s.nestDepth, s.enc, s.encRef
+//@   ensures RN(s) && scanFrame(s) && apos(s) >= old(apos(s)) && s.nestDepth == old(s.nestDepth)
+//@   ensures old(s.enc) == nil ==> (err != nil && !malformed(err) && err != io.EOF ==> s.src.fails)
+//@   ensures err == io.EOF ==> !s.src.fails
+//@   ensures err == nil ==> ref % 4294967296 < 16777216
+
+//@ func (*scanner).ReadIndirectObject (s) (obj, ref, err)
+//@   tags C04 C05 C19 C20
+//@   requires RN(s)
+//@   assigns s.filePos, s.pos, s.used, s.err, elems(s.buf), s.src.rdpos, s.nestDepth, s.enc, s.encRef
+//@   ensures RN(s) && scanFrame(s) && apos(s) >= old(apos(s)) && s.nestDepth == old(s.nestDepth)
+//@   ensures old(s.enc) == nil ==> (err != nil && !malformed(err) ==> s.src.fails)
+//@   ensures err != io.EOF && err != io.ErrUnexpectedEOF
+//@   ensures err == nil ==> ref % 4294967296 < 16777216
